@@ -222,6 +222,23 @@ def small_matrices(n):
         yield [list(vals[i * n:(i + 1) * n]) for i in range(n)]
 
 
+# further complete sets (thorough; the binary 4x4 set also in the quick tier
+# for the transpiled build): name -> (n, alphabet)
+SETS = {'small': None, 'five3': (3, (-2, -1, 0, 1, 3)), 'bin4': (4, (0, 1)),
+        'tern4': (4, (-1, 0, 1))}
+
+
+def matrix_at(n, alph, idx):
+    """The idx-th n x n matrix over alph (same order as itertools.product)."""
+    k = len(alph)
+    vals = []
+    for _ in range(n * n):
+        vals.append(alph[idx % k])
+        idx //= k
+    vals.reverse()
+    return [vals[i * n:(i + 1) * n] for i in range(n)]
+
+
 def family_matrices(thorough):
     """n = 4..6 structured families: list of (label, rows)."""
     out = []
@@ -303,6 +320,11 @@ def _gj_job(args):
         n, start, stop = payload
         it = itertools.islice(small_matrices(n), start, stop)
         mats = [('small', A) for A in it]
+    elif kind in SETS:
+        n, alph = SETS[kind]
+        start, stop, stride = payload
+        mats = [('small', matrix_at(n, alph, i))
+                for i in range(start, stop, stride)]
     else:
         mats = payload
     for label, A in mats:
@@ -469,6 +491,18 @@ def run(ctx):
                 rng = [(s, min(tot, s + step)) for s in range(0, tot, step)]
             for (s, e) in rng:
                 jobs.append(('small', (n, s, e), impl_name))
+        extra = [('bin4', 1)] if impl_name == 'cy' or ctx.thorough else []
+        if ctx.thorough:
+            # all 5^9 3x3 matrices over {-2,-1,0,1,3}; every 7th (py: 23rd)
+            # of the 3^16 4x4 matrices over {-1,0,1}
+            extra += [('five3', 1), ('tern4', 7 if impl_name == 'cy' else 23)]
+        for nm, stride in extra:
+            n_, alph = SETS[nm]
+            tot_ = len(alph) ** (n_ * n_)
+            step_ = 8192 * stride
+            for s_ in range(0, tot_, step_):
+                jobs.append((nm, (s_ + (ctx.seed % stride), min(tot_, s_ + step_),
+                                  stride), impl_name))
         fam = family_matrices(ctx.thorough)
         for i in range(0, len(fam), 200):
             jobs.append(('family', fam[i:i + 200], impl_name))
@@ -512,7 +546,10 @@ def run(ctx):
                              scale=1e8)],
                rule='gj_solve: all n x n matrices over {-1,0,1,2}, n<=3 '
                     '(4^(n*n)), 1-3 right-hand sides, directly and through '
-                    'augmented_matrix with nmax>n; n=4..6: row permutations '
+                    'augmented_matrix with nmax>n; all 65 536 binary 4x4 '
+                    'matrices (quick: transpiled build); thorough: all 5^9 '
+                    '3x3 matrices over {-2,-1,0,1,3} and every 7th / 23rd of '
+                    'the 3^16 4x4 matrices over {-1,0,1}; n=4..6: row permutations '
                     'of a diagonally dominant matrix, scaled permutation '
                     'matrices, zero/tiny pivots in every position, pivot-'
                     'search traps (tiny entry in a later row), row '
